@@ -70,6 +70,15 @@ def run(ck, rng, tier):
             nb, n, widths, tot, scaling = 3, max(n, 10), [3, 4, 2], 9, 1
             Xc, s = c02.gen_separated(rng, n, tot, 1.0)
             Xc[:, 1] = 2.5
+        if c in (6, 7, 8):
+            nb, n, widths, tot = 2, max(n, 9), [3, 2], 5
+            Xc, s = c02.gen_separated(rng, n, tot, 1.0)
+            if c == 6:      # level scaling (option 5) with a variable whose mean is negative
+                scaling = 5
+                Xc = Xc - Xc.mean(axis=0) + np.array([4.0, -3.0, 2.5, 6.0, -5.0])
+            else:           # centring only, data in units of 1e-3 / 1e-5 (sums of squares below 1e-3 / 1e-9), two components
+                scaling = 0
+                Xc = (Xc - Xc.mean(axis=0)) * (1e-3, 1e-5)[c - 7] + np.array([0.02, 0.03, 0.05, 0.04, 0.06])
         blocks, c0 = [], 0
         for w in widths:
             blocks.append(Xc[:, c0:c0 + w].copy())
@@ -78,7 +87,7 @@ def run(ck, rng, tier):
         nproc = rng.choice((1, 1, 2, 4, 8))
         if c == 0:
             npc, nproc = 4, 1
-        if c in (2, 3, 5):
+        if c in (2, 3, 5, 7, 8):
             npc = 2
         # the property presumes regular data: every preprocessed block non-constant, enough rank
         Ebs = [c02.preprocess(b, scaling) for b in blocks]
